@@ -40,8 +40,14 @@ var solvers = []solverSpec{
 }
 
 func parseStatus(out string) string {
+	// an error reported before the answer invalidates the run; errors after it come from the
+	// (get-value ...) that follows an unsat answer and are harmless
 	for _, l := range strings.Split(out, "\n") {
-		if strings.HasPrefix(strings.TrimSpace(l), "(error") && !strings.Contains(l, "model is not available") {
+		t := strings.TrimSpace(l)
+		if t == "sat" || t == "unsat" || t == "unknown" {
+			break
+		}
+		if strings.HasPrefix(t, "(error") {
 			return "error"
 		}
 	}
@@ -98,6 +104,15 @@ func Solve(file, qfFile string, timeout time.Duration, all bool, cover ...bool) 
 	ch := make(chan ans, len(runs))
 	for _, r := range runs {
 		go func(r run) {
+			// staged start: z3-new first; the other solvers only join if it has not answered quickly
+			if r.s.name != "z3-new" {
+				select {
+				case <-ctx.Done():
+					ch <- ans{r.s.name, "unknown", "", 0, r.qf}
+					return
+				case <-time.After(1500 * time.Millisecond):
+				}
+			}
 			argv := r.s.argv(r.file, timeout)
 			t0 := time.Now()
 			cmd := exec.CommandContext(ctx, argv[0], argv[1:]...)
